@@ -173,7 +173,13 @@ Definition visit_st_pre9 (n : st_node) : SE v999 unit :=
         do s <- seg_set_opt s "02" (Some (strip_ws ctl));
         match tn_vriic n with Some vr => seg_set_opt s "03" (Some vr) | None => Ok s end);   (* fix 53b77cf: AK203 omitted *)
       wr_write ak2
-  | _, _ => se_raise EngineError
+  | Some id, None =>                               (* an ST without ST02: (None or '').strip() *)
+      dos ak2 <- se_lift (
+        do s <- seg_set_opt (parse_seg D (l "AK2")) "01" (Some id);
+        do s <- seg_set_opt s "02" (Some []);
+        match tn_vriic n with Some vr => seg_set_opt s "03" (Some vr) | None => Ok s end);
+      wr_write ak2
+  | None, _ => se_raise EngineError
   end.
 
 (* __get_st_errors (253-272) *)
